@@ -892,6 +892,21 @@ func liveTrial(cn *canary, sp *spec) *result {
 		}
 	}
 
+	if sp.traffic == "pingdense" {
+		// a dense stream of server messages (one every 150 us) from 8 ms before until 8 ms after the next
+		// ping: over polling the ping then travels in one payload BEHIND messages, over websocket between them
+		srvEP.hook = func(int) {
+			go func() {
+				sleepUntil(time.Now().Add(sp.pi-8*time.Millisecond), stop)
+				end := time.Now().Add(16 * time.Millisecond)
+				for time.Now().Before(end) && !stopped() {
+					serverSend()
+					time.Sleep(150 * time.Microsecond)
+				}
+			}()
+		}
+	}
+
 	srv, err := rig.NewEIOServer(func(s eio.ServerSocket) *eio.Callbacks {
 		if ssv.CompareAndSwap(nil, s) {
 			ev.signal("est")
@@ -1068,7 +1083,7 @@ func main() {
 	run.Rule("dead-peer trials = (pingInterval, pingTimeout) x transport {polling, websocket, upgraded, upgrading} x black-holed direction {both, c2s, s2c} x placement phase " +
 		"(time anchored: before / just before a ping; event anchored: inside the client's ping callback before the pong leaves, inside the server's pong callback; upgrading: at the ws upgrade request, " +
 		"mid-handshake, at the client's UpgradeDone, at the server's transport switch, each also with the upgrade held back until the first ping), each run against a fresh real server + real client through the fault proxy; " +
-		"live-peer trials = (pingInterval, pingTimeout) x transport x traffic {idle, c2s every 0.37 pi, s2c, both 0.37/0.61, locked onto the ping/pong instants}; " +
+		"live-peer trials = (pingInterval, pingTimeout) x transport x traffic {idle, c2s every 0.37 pi, s2c, both 0.37/0.61, locked onto the ping/pong instants, dense server stream (one message per 150 us) around every ping}; " +
 		"distinct = kind/transport/direction-or-traffic/pi,pt/phase/outcome class (close reason and on-time/late per side)")
 	run.Assume("a side is 'closed' when its OnClose callback has run (the only public signal); detection latency is measured from the black-hole call to that callback",
 		"black-hole = loopback TCP relay that keeps both TCP connections open and forwards nothing in the chosen direction(s) on existing and new connections, not even the other end's FIN/RST",
@@ -1099,7 +1114,7 @@ func main() {
 				}
 			}
 		}
-		traffics := []string{"idle", "c2s", "s2c", "pinglocked"}
+		traffics := []string{"idle", "c2s", "s2c", "pinglocked", "pingdense"}
 		if run.Thorough() {
 			traffics = append(traffics, "both")
 		}
